@@ -7,6 +7,9 @@ INT = {'u8': (8, False), 'u16': (16, False), 'u32': (32, False), 'u64': (64, Fal
        'i8': (8, True), 'i16': (16, True), 'i32': (32, True), 'i64': (64, True), 'i128': (128, True), 'isize': (64, True),
        'char': (32, False)}
 
+# enums whose discriminant values are not 0..n-1
+DISCR_VALUES = {'Ordering': {'Less': -1, 'Equal': 0, 'Greater': 1}}
+
 STD_VARIANTS = {'Option': ['None', 'Some'], 'Result': ['Ok', 'Err'], 'ControlFlow': ['Continue', 'Break'],
                 'Ordering': ['Less', 'Equal', 'Greater']}
 
@@ -375,7 +378,8 @@ class Exec:
                 if lt and lt[-1] in self.enums and segs[-1] in self.enums[lt[-1]]:
                     tyname, var = lt[-1], segs[-1]        # bare variant path (`_2 = NegOverflow;`): the enum is the lhs type
             if tyname is not None:
-                st.heap[oid]['discr'] = BV(z3.BitVecVal(self.enums[tyname].index(var), 64), True)
+                dv = DISCR_VALUES.get(tyname, {}).get(var, self.enums[tyname].index(var))
+                st.heap[oid]['discr'] = BV(z3.BitVecVal(dv, 64), True)
                 for i, v in enumerate(vals): st.heap[oid][('f', var, i)] = v
                 return ObjV(oid)
             if form[0] == 'adt_struct':
@@ -461,7 +465,15 @@ class Exec:
             if s.lhs is None:
                 continue
             oid, key, ty = self.lvalue(st, fr, s.lhs)
-            st.heap[oid][key] = self.rvalue(st, fr, s.rv, ty)
+            try:
+                st.heap[oid][key] = self.rvalue(st, fr, s.rv, ty)
+            except (RuntimeError, AttributeError, KeyError, TypeError, z3.Z3Exception) as e:
+                # an operation the interpreter has no exact semantics for (float arithmetic, pointer metadata of an
+                # unmodelled pointee, ...): the result is unconstrained and the path is marked as havocked, so whatever
+                # depends on it can only become a candidate that must reproduce natively - never a pass
+                tag = 'uninterpreted ' + re.sub(r'_\d+', '_', s.text)[:50]
+                st.havoc.append(tag); self.unhandled[tag] = self.unhandled.get(tag, 0) + 1
+                st.heap[oid][key] = self.fresh_value(st, ty or 'u64', st.fresh_name('havoc'))
         t = bb.term
         if t.kind == 'goto':
             fr['bb'] = t.data['target']; return [st]
@@ -552,7 +564,7 @@ class Exec:
         tyname, var = enum_variant(self.enums, segs)
         if tyname is not None:
             oid = st.new_obj(st.fresh_name('agg'), tyname)
-            st.heap[oid]['discr'] = BV(z3.BitVecVal(self.enums[tyname].index(var), 64), True)
+            st.heap[oid]['discr'] = BV(z3.BitVecVal(DISCR_VALUES.get(tyname, {}).get(var, self.enums[tyname].index(var)), 64), True)
             for i, v in enumerate(args): st.heap[oid][('f', var, i)] = v
             if dest is not None:
                 o2, k2, _ = self.lvalue(st, fr, dest); st.heap[o2][k2] = ObjV(oid)
